@@ -177,6 +177,9 @@ static void giant_counts() {
     const uint16_t *w = (const uint16_t *)mem;
     std::string rep = "giant-counts\n";
     vp::CaseScope scope([rep] { return rep; });
+    // each of the six passes takes many seconds (more on a loaded machine) and cannot be cut into pieces: the progress watchdog is for
+    // harness-owned callbacks that never return, not for a bounded loop over 4 GiB, so it is switched off for the duration of this phase
+    alarm(0);
     uint16_t want = ufw_crc16_arc(0x1d0f, mem, bytes), want0 = ufw_crc16_arc(CRC16_ARC_INITIAL, mem, bytes);
     struct { const char *name; uint16_t got, want; } r[4] = {
         {"uint32_t count", vp_crc_u16_count32(0x1d0f, w, 0x80000000u), want}, {"unsigned sum", vp_crc_u16_unsigned(0x1d0f, w, 0x7fffffffu, 1u), want},
@@ -184,6 +187,7 @@ static void giant_counts() {
     for (auto &x : r) { vp::count(); vp::nontrivial(vp::fnv(x.name, strlen(x.name), 16)); vp::cls("2^31-words-with-a-count-narrower-than-size_t");
         if (x.got != x.want) vp::fail(std::string("giant-count:") + x.name, vp::fmt("word checksum of 2^31 words called with a %s returns %04x, the octet variant over the same 2^32 octets %04x", x.name, x.got, x.want), rep); }
     munmap(mem, bytes);
+    vp::alive(); alarm(vp::args().replay.empty() ? 10 : 60);
 }
 static void run() {
     auto &a = vp::args();
